@@ -250,6 +250,7 @@ func (e *Engine) opDump(c *cursor) *Violation {
 	e.pending = pd
 
 	// two receiving worlds loaded from the SAME dump object: a fresh one and one that had other content and was reset
+	resLost := false
 	mkWorld := func(reset bool) (*Sys, string) {
 		capInc := []int{1, 2, 3, 7, 16, 128}[c.n(6)]
 		lw := ecs.NewWorld(ecs.NewConfig().WithCapacityIncrement(capInc))
@@ -268,6 +269,10 @@ func (e *Engine) opDump(c *cursor) *Violation {
 			e.St.Probes["load-into-reset-world"]++
 		}
 		ls := &Sys{Name: "load", W: &lw, idxOfID: map[uint8]int{}}
+		// a resource added before loading: LoadEntities is about entities only
+		type loadMarker struct{ V uint64 }
+		marker := &loadMarker{V: uint64(e.step)}
+		rid := ecs.AddResource(&lw, marker)
 		var msg string
 		func() {
 			defer func() {
@@ -277,15 +282,24 @@ func (e *Engine) opDump(c *cursor) *Violation {
 			}()
 			lw.LoadEntities(&d2)
 		}()
+		if msg == "" && (!lw.Resources().Has(rid) || lw.Resources().Get(rid) != interface{}(marker)) {
+			resLost = true
+		}
 		return ls, msg
 	}
 	l1, msg := mkWorld(false)
 	if msg != "" {
 		return e.viol("dump-diff", nil, "LoadEntities into a fresh world panicked: %s", msg)
 	}
+	if resLost {
+		return e.viol("resource", nil, "LoadEntities removed (or replaced) a resource that had been added to the receiving world before")
+	}
 	l2, msg := mkWorld(true)
 	if msg != "" {
 		return e.viol("dump-diff", nil, "LoadEntities into a reset world panicked: %s", msg)
+	}
+	if resLost {
+		return e.viol("resource", nil, "LoadEntities into a reset world removed (or replaced) a resource that had been added to it after the reset")
 	}
 	// refusal: the source world has (or had, since its last reset) entities
 	if e.M.Created > 0 || e.locked() {
